@@ -26,7 +26,7 @@ def one(patch):
         for p in PROPS:
             mod = importlib.import_module('rules.' + p.lower())
             ctx = core.Ctx(f, info, p)
-            mod.run(ctx)
+            core.run_rules(mod, ctx)
             bad = sorted(set(i.key for r in ctx.rules for i in r.insts if not i.ok))
             if bad:
                 fired[p] = bad[:6]
